@@ -251,6 +251,37 @@ def h_spellings_after_lookups(eng, first, then):
         eng.prove(ureg.get_name(sp) == info.name, f"spelling-name-after-lookups:{sp}")
 
 
+def h_other_numeric_types(eng, pairs):
+    """the default registry built for floats and for Decimals: the factors of the same pairs agree
+    with the exact ones to a few ulp / to the Decimal precision, magnitudes keep their type"""
+    import decimal
+
+    import pint
+
+    inf = covers.infos()
+    fl = regs.float_default()
+    dec = getattr(h_other_numeric_types, "_dec", None)
+    if dec is None:
+        dec = h_other_numeric_types._dec = pint.UnitRegistry(non_int_type=decimal.Decimal)
+    for u, v in pairs:
+        exact = inf[u].num / inf[v].num
+        r = fl.Quantity(1.0, u).to(v)
+        rel = abs(Fraction(r.magnitude) / exact - 1)
+        eng.prove(rel <= Fraction(1, 10**14), f"float-factor:{u}->{v}")
+        eng.prove(type(r.magnitude) is float, f"float-type:{u}->{v}")
+        back = r.to(u).magnitude
+        eng.prove(abs(back - 1.0) <= 1e-14, f"float-round-trip:{u}->{v}")
+        # magnitudes far from 1 (no absolute tolerance hides a lost factor)
+        big = fl.Quantity(1e200, u).to(v).magnitude
+        eng.prove(abs(Fraction(big) / (exact * Fraction(10) ** 200) - 1) <= Fraction(1, 10**13), f"float-factor-large-magnitude:{u}->{v}")
+        rd = dec.Quantity(decimal.Decimal(1), u).to(v)
+        eng.prove(type(rd.magnitude) is decimal.Decimal, f"decimal-type:{u}->{v}")
+        reld = abs(Fraction(rd.magnitude) / exact - 1)
+        eng.prove(reld <= Fraction(1, 10**24), f"decimal-factor:{u}->{v}")
+        ri = fl.Quantity(3, u).to(v)
+        eng.prove(abs(Fraction(ri.magnitude) / (3 * exact) - 1) <= Fraction(1, 10**14), f"int-magnitude:{u}->{v}")
+
+
 TEMPLATES = [
     # (name, list of (unit, exponents over earlier units), queries)
     ("chain3", [("u1", {"b1": 1}), ("u2", {"u1": 1}), ("u3", {"u2": 1})]),
@@ -395,6 +426,10 @@ def cases(tier, seed):
         then = [b for _, b in chunk] + rnd.sample(names[: len(names) - 1], 6)
         then = [t for t in then if t in d.spellings and inf.get(d.spellings[t]) is not None]
         out.append(Case("H02.e", f"{i:04d}:{chunk[0][0]}", M, "h_spellings_after_lookups", {"first": first, "then": then}, validate=1))
+    # H02.f the float and Decimal registries on the same pairs (concrete)
+    exact_pairs = [(u, v) for u, v in pairs if not inf[u].inexact and not inf[v].inexact]
+    for i in range(0, len(exact_pairs), 60):
+        out.append(Case("H02.f", f"{i:05d}", M, "h_other_numeric_types", {"pairs": exact_pairs[i : i + 60]}, kind="conc"))
     # H02.d generated registries with symbolic scales
     for t in TEMPLATES:
         out.append(Case("H02.d", t[0], M, "h_generated", {"tname": t[0]}, weight=5.0))
